@@ -67,6 +67,9 @@ func runC05(p *chk.Prog, r *chk.Report) {
 	c05Select(p, r)
 	c05Cover(p, r)
 	c05Active(p, r)
+	c05ReportKey(p, r)
+	// the node labels the selectors are evaluated against follow the node (LABEL-RESYNC, shared with C09)
+	c09NodeLabels(p, r)
 }
 
 func c05Build(p *chk.Prog, r *chk.Report) {
@@ -775,4 +778,74 @@ func countEmptyInits(f *chk.Fn, l types.Object) int {
 		}
 	}
 	return n
+}
+
+// c05ReportKey: the peers reported for a service are found by mapping every advertisement set on a peer back to the
+// services that produce that prefix. The index is keyed by the whole prefix (address and length) on both sides.
+func c05ReportKey(p *chk.Prog, r *chk.Report) {
+	x := r.Rule("REPORT-KEY", "B path", "in notifyAdsChanged the prefix -> services index is built and read with the key ad.Prefix.String() of the advertisement at hand (address and mask length): two prefixes with the same network address and different lengths are different routes with different peer sets", 2)
+	f := need(x, p, "speaker", "bgpController", "notifyAdsChanged")
+	if f == nil {
+		return
+	}
+	g := f.Graph()
+	// the index: a local map written while ranging over c.svcAds
+	var idx types.Object
+	for _, rs := range f.RangeLoops(func(e ast.Expr) bool { return f.MatchWith("RECV.svcAds", e, chk.H("RECV", isRecv(f))) != nil }) {
+		ast.Inspect(rs.Body, func(n ast.Node) bool {
+			as, ok := n.(*ast.AssignStmt)
+			if !ok || len(as.Lhs) != 1 {
+				return true
+			}
+			if ix, isIx := ast.Unparen(as.Lhs[0]).(*ast.IndexExpr); isIx {
+				if id, isId := ast.Unparen(ix.X).(*ast.Ident); isId {
+					if _, isMap := f.Info().TypeOf(id).Underlying().(*types.Map); isMap && idx == nil {
+						idx = f.ObjOf(id)
+					}
+				}
+			}
+			return true
+		})
+	}
+	if idx == nil {
+		// the get-or-create spelling: s := idx[k]; ... idx[k] = s handled above; a helper call insert(idx, k, v)
+		for _, c := range g.FindPat("F(M, K, V)") {
+			call := c.Node.(*ast.CallExpr)
+			if id, isId := ast.Unparen(call.Args[0]).(*ast.Ident); isId && f.LoopOf(c.Node) != nil {
+				if _, isMap := f.Info().TypeOf(id).Underlying().(*types.Map); isMap && idx == nil {
+					idx = f.ObjOf(id)
+				}
+			}
+		}
+	}
+	if idx == nil {
+		x.Fail("notifyAdsChanged:index", f.Pos(), "no prefix -> services index built from c.svcAds")
+		return
+	}
+	n, ok := 0, true
+	bad := f.Pos()
+	ast.Inspect(f.Body, func(nd ast.Node) bool {
+		ix, isIx := nd.(*ast.IndexExpr)
+		if !isIx || f.ObjOf(ast.Unparen(ix.X)) != idx {
+			return true
+		}
+		n++
+		key := f.Resolve(ix.Index)
+		b := f.MatchNew("A.Prefix.String()", key)
+		good := false
+		if b != nil {
+			// A is the advertisement of an enclosing loop
+			for lp := f.LoopOf(nd); lp != nil; lp = f.LoopOf(lp) {
+				if rs, isR := lp.(*ast.RangeStmt); isR && rangeVal(f, rs)(b["A"]) {
+					good = true
+				}
+			}
+		}
+		if !good {
+			ok = false
+			bad = ix.Pos()
+		}
+		return true
+	})
+	x.Check("notifyAdsChanged:index-keyed-by-whole-prefix", bad, ok && n >= 2, "", "the prefix -> services index is not keyed by the advertisement's whole prefix (address/length) where it is built or read: services are reported as advertised to peers that are offered none of their prefixes")
 }
